@@ -1,11 +1,13 @@
 #!/bin/bash
-# apply a patch to /repo, run checks, undo.  usage: trymut.sh <patch> <prop>[,<prop>..] [tier] [extra vf args]
-P=$1; PROPS=$2; TIER=${3:-quick}; shift 3 2>/dev/null
-git -C /repo apply "$P" || { echo "patch does not apply"; exit 9; }
-trap 'git -C /repo checkout -- . ' EXIT
+# run checks against a scratch worktree of /repo with a patch applied (VF_REPO), leaving /repo alone.
+# usage: trymut.sh <patch> <prop>[,<prop>..] [tier] [extra vf args]
+P=$(realpath "$1"); PROPS=$2; TIER=${3:-quick}; shift 3 2>/dev/null
+W=/tmp/mutwt-$$
+git -C /repo worktree add -q --detach $W HEAD || exit 9
+trap 'git -C /repo worktree remove --force '$W' 2>/dev/null; git -C /repo worktree prune' EXIT
+git -C $W apply "$P" || { echo "patch does not apply"; exit 9; }
 for pr in ${PROPS//,/ }; do
-  cp /verif/evidence/$pr.json /tmp/ev-$pr.bak 2>/dev/null
-  /verif/vf check $pr --tier $TIER "$@" 2>/dev/null | grep -vE "^  query=" | cut -c1-400 | head -12
+  VF_REPO=$W VF_EVIDENCE_DIR=/tmp/mutev-$$ /verif/vf check $pr --tier $TIER "$@" 2>/dev/null | grep -vE "^  query=" | cut -c1-300 | head -8
   echo "  -> $pr exit=${PIPESTATUS[0]}"
-  cp /tmp/ev-$pr.bak /verif/evidence/$pr.json 2>/dev/null
 done
+rm -rf /tmp/mutev-$$
